@@ -2,6 +2,7 @@
 # tools/runall.sh [tier]: setup + every check once, summary at the end (what `vp check` does, locally)
 cd "$(dirname "$0")/.."
 tier=${1:-quick}
+mkdir -p .cache
 log=.cache/runall-$tier.log
 ( time ./check --warm $tier ) > $log 2>&1
 for p in C01 C02 C03 C04 C05 C06 C07 C08 C09 C10 C11 C12 C13 C14 C15 C16 C17 C18 C19; do
